@@ -116,6 +116,55 @@ class Campaign:
 # shards
 
 
+HARD_S = 90                      # a worker that gives no sign of life for this long while analysing one input is stopped by a C-level watchdog
+HANG_VIOLATION_PIDS = ("C05", "C01")   # checks for which "no answer" is the property itself; the others end with a harness error (inconclusive)
+CURRENT_PID = None
+_CUR = {"map": None, "armed": 0.0, "tb": None}
+
+
+def install_current(path):
+    """called in a freshly forked worker: `path` receives the input under analysis (read by the parent if the worker has to be stopped)"""
+    import mmap
+    with open(path, "wb") as f:
+        f.write(b"\0" * (1 << 18))
+    fd = os.open(path, os.O_RDWR)
+    _CUR["map"] = mmap.mmap(fd, 1 << 18)
+    _CUR["tb"] = open(path + ".tb", "w")
+    _CUR["armed"] = 0.0
+
+
+def note_current(name, text):
+    """record the input that is about to be analysed and keep the hard watchdog armed (Python-level signal handlers cannot interrupt a
+    regular-expression match or any other long C call; faulthandler's watchdog thread can, but only by ending the process)"""
+    m = _CUR["map"]
+    if m is None:
+        return
+    try:
+        nb = name.encode("utf-8", "surrogateescape")[:1000]
+        tb = text.encode("utf-8", "surrogateescape")[:(1 << 18) - 1100]
+    except Exception:
+        return
+    m.seek(0)
+    m.write(len(nb).to_bytes(4, "big") + len(tb).to_bytes(4, "big") + nb + tb)
+    now = time.monotonic()
+    if now - _CUR["armed"] > 0.5:
+        import faulthandler
+        faulthandler.dump_traceback_later(HARD_S, exit=True, file=_CUR["tb"])
+        _CUR["armed"] = now
+
+
+def _read_current(path):
+    try:
+        with open(path, "rb") as f:
+            raw = f.read()
+        n, t = int.from_bytes(raw[:4], "big"), int.from_bytes(raw[4:8], "big")
+        if n == 0 and t == 0:
+            return None
+        return raw[8:8 + n].decode("utf-8", "surrogateescape"), raw[8 + n:8 + n + t].decode("utf-8", "surrogateescape")
+    except OSError:
+        return None
+
+
 def _shard_entry(args):
     func, kwargs = args
     try:
@@ -149,7 +198,10 @@ def _fork_map(func, shard_kwargs, procs):
                 if pid == 0:
                     code = 3
                     try:
+                        install_current(os.path.join(tmpdir, "cur_%d" % idx))
                         res = _shard_entry((func, kw))
+                        import faulthandler
+                        faulthandler.cancel_dump_traceback_later()
                         with open(path, "wb") as f:
                             pickle.dump(res, f)
                         code = 0
@@ -161,6 +213,13 @@ def _fork_map(func, shard_kwargs, procs):
                 continue
             idx, path = running.pop(pid)
             code = os.waitstatus_to_exitcode(st)
+            tbp = os.path.join(tmpdir, "cur_%d.tb" % idx)
+            if code == 1 and os.path.exists(tbp) and os.path.getsize(tbp) > 0:
+                cur = _read_current(os.path.join(tmpdir, "cur_%d" % idx))
+                if cur is not None:
+                    # stopped by the hard watchdog while analysing `cur`
+                    results[idx] = ("hang", {"name": cur[0], "text": cur[1]})
+                    continue
             if code != 0 or not os.path.exists(path):
                 for other in running:
                     try:
@@ -190,10 +249,40 @@ def run_shards(func, shard_kwargs, procs=None):
     else:
         results = _fork_map(func, shard_kwargs, procs)
     for status, payload in results:
+        if status == "hang":
+            if CURRENT_PID in HANG_VIOLATION_PIDS:
+                total.fail("%s|HANG|hard-watchdog" % CURRENT_PID, "no answer within %d s on %r (a worker had to be stopped; the rest of its shard was not run)" % (
+                    HARD_S, payload["text"][:80]), {"name": payload["name"], "text": payload["text"], "hard_hang": True})
+                total.count("shards-cut-short-by-a-hang")
+                continue
+            raise HarnessError("a worker gave no answer within %d s on the input %r of file %s: the tool hangs (that is C05's property; this check is inconclusive)" % (
+                HARD_S, payload["text"][:120], payload["name"]))
         if status != "ok":
             raise HarnessError("worker failed:\n" + payload)
         total.merge(payload)
     return total
+
+
+def guarded(fn, timeout):
+    """fn() in a forked child; -> ("ok", None) or ("hang", None) when it has to be stopped after `timeout` seconds"""
+    pid = os.fork()
+    if pid == 0:
+        code = 0
+        try:
+            fn()
+        except BaseException:
+            code = 0
+        finally:
+            os._exit(code)
+    t0 = time.time()
+    while time.time() - t0 < timeout:
+        got, st = os.waitpid(pid, os.WNOHANG)
+        if got == pid:
+            return "ok"
+        time.sleep(0.05)
+    os.kill(pid, 9)
+    os.waitpid(pid, 0)
+    return "hang"
 
 
 # ---------------------------------------------------------------------------------------------
@@ -308,7 +397,7 @@ def shrink_text(text, pred, seconds):
 def shrink_bucket(replay_fn, pid, key, case, seconds):
     """generic: shrinks case["text"] (or the first file of case["files"]) while replay still yields `key`"""
     import copy
-    if replay_fn is None:
+    if replay_fn is None or case.get("hard_hang"):
         return case, False
     if "text" in case and isinstance(case["text"], str) and "line" not in case and "where" not in case:
         def pred(t):
